@@ -248,6 +248,7 @@ type vfGen struct {
 	symToks  bool // token fields forked over their candidates
 	multiLine bool // forked decorations may also be multi-line block comments (content-bounded)
 	depth    int  // children below this depth are minimal leaves
+	level    int  // 0 while building the top node
 	n        int
 }
 
@@ -281,9 +282,9 @@ func (g *vfGen) present(typ, field string, optional bool) bool {
 func (g *vfGen) decs(typ, point string) Q.Decorations {
 	var d Q.Decorations
 	switch {
-	case g.decPoint == "*":
+	case g.decPoint == "*" || (g.decPoint == "^" && g.level == 0):
 		d = make(Q.Decorations, 0, 1+g.spare)
-		d = append(d, vfOpaque(g.nm("c"), "/*")+"*/")
+		d = append(d, vfOpaque(g.nm("c"), "/*"+string(rune('A'+g.n%26)))+"*/")
 	case g.decPoint == typ+"."+point:
 		n := vfChoice(g.nm("ndecs"), g.maxDecs+1)
 		d = make(Q.Decorations, 0, n+g.spare)
@@ -330,6 +331,13 @@ func (g *vfGen) tok(cands ...token.Token) token.Token {
 
 func (g *vfGen) ident() *Q.Ident { return &Q.Ident{Name: vfOpaque(g.nm("id"), "v")} }
 
+func (g *vfGen) leaf(f func() Q.Node) Q.Node {
+	g.level++
+	n := f()
+	g.level--
+	return n
+}
+
 func (g *vfGen) leafExpr() Q.Expr { return g.ident() }
 func (g *vfGen) leafStmt() Q.Stmt { return &Q.ExprStmt{X: g.ident()} }
 func (g *vfGen) leafDecl() Q.Decl {
@@ -351,7 +359,7 @@ func (g *vfGen) leafSpec() Q.Spec { return &Q.ValueSpec{Names: []*Q.Ident{g.iden
 	w("\tcase \"File\":\n\t\treturn &%sFile{Name: g.ident()}\n", q)
 	w("\t}\n\tpanic(\"vfGen: no leaf for \" + typ)\n}\n\n")
 
-	w("func (g *vfGen) child(typ string) %sNode {\n\tif g.depth <= 0 {\n\t\treturn g.leafPtr(typ)\n\t}\n\tg.depth--\n\tsp, fl, tk := g.spaces, g.symFlags, g.symToks\n\tg.spaces, g.symFlags, g.symToks = false, false, false\n\tn := g.Node(typ)\n\tg.spaces, g.symFlags, g.symToks = sp, fl, tk\n\tg.depth++\n\treturn n\n}\n\n", q)
+	w("func (g *vfGen) child(typ string) %sNode {\n\tif g.depth <= 0 {\n\t\treturn g.leafPtr(typ)\n\t}\n\tg.depth--\n\tg.level++\n\tdefer func() { g.level-- }()\n\tsp, fl, tk := g.spaces, g.symFlags, g.symToks\n\tg.spaces, g.symFlags, g.symToks = false, false, false\n\tn := g.Node(typ)\n\tg.spaces, g.symFlags, g.symToks = sp, fl, tk\n\tg.depth++\n\treturn n\n}\n\n", q)
 
 	var names []string
 	for _, t := range types {
